@@ -2,7 +2,7 @@
 # usage: confirm_seed.sh <ID> <k>   — independently confirm a seeded change in its scratch worktree:
 #   tests give the baseline result with the change; the demo fails with it and passes without it.
 ID=$1; K=$2
-R=${ROUND:-1}; if [ "$R" = 5 ]; then WT=/tmp/seed/wt4_$ID; O=/tmp/seed/out5/$ID/$K; elif [ "$R" = 4 ]; then WT=/tmp/seed/wt4_$ID; O=/tmp/seed/out4/$ID/$K; elif [ "$R" = 3 ]; then WT=/tmp/seed/wt3_$ID; O=/tmp/seed/out3/$ID/$K; elif [ "$R" = 2 ]; then WT=/tmp/seed/wt2_$ID; O=/tmp/seed/out2/$ID/$K; else WT=/tmp/seed/wt_$ID; O=/tmp/seed/out/$ID/$K; fi
+R=${ROUND:-1}; if [ "$R" = 6 ]; then WT=/tmp/seed/wt6_$ID; O=/tmp/seed/out6/$ID/$K; elif [ "$R" = 5 ]; then WT=/tmp/seed/wt4_$ID; O=/tmp/seed/out5/$ID/$K; elif [ "$R" = 4 ]; then WT=/tmp/seed/wt4_$ID; O=/tmp/seed/out4/$ID/$K; elif [ "$R" = 3 ]; then WT=/tmp/seed/wt3_$ID; O=/tmp/seed/out3/$ID/$K; elif [ "$R" = 2 ]; then WT=/tmp/seed/wt2_$ID; O=/tmp/seed/out2/$ID/$K; else WT=/tmp/seed/wt_$ID; O=/tmp/seed/out/$ID/$K; fi
 export CARGO_NET_OFFLINE=true CARGO_TARGET_DIR=$WT/target
 cd $WT && git checkout -q -- . && git apply $O/patch.diff || { echo "RESULT $ID/$K patch-failed"; exit 1; }
 T=$(cargo test --workspace --no-fail-fast --offline 2>&1 | grep -E "^test result|^test .* FAILED$" | sed 's/finished in.*//' | sort | md5sum | cut -c1-12)
